@@ -76,7 +76,9 @@ fn parse_exponent(data: &[u8], index: &mut usize) -> Result<i32, Error> {
     }
 
     check_digit!(data, *index);
-    while exponent < 1000 && is_digit!(data, *index) {
+    // the exponent is added to the (positive or negative) number of digits that were dropped from
+    // the significand, which can be as large as the input: saturate far above any input length
+    while exponent < 100_000_000 && is_digit!(data, *index) {
         exponent = digit!(data, *index) as i32 + exponent * 10;
         *index += 1;
     }
